@@ -341,12 +341,44 @@ class C15(object):
             if viol is None and list(mg["spot3d_id"]) != list(range(ncomp)):
                 viol = V("merged-property-differs", "spot3d_id of merged peaks is not 0..n-1")
         native_checked = 0
-        if viol is None and desc["native"] and n > 0:
-            for nt in (1, 2, 4):
-                self.numba.set_num_threads(min(nt, self.numba.config.NUMBA_NUM_THREADS))
-                with contextlib.redirect_stdout(io.StringIO()):
-                    nl, lab2 = props.find_ND_labels(ei, ej, n, verbose=0) if len(E) else (None, None)
-                if nl is not None:
+        if viol is None and desc["native"] and n > 0 and len(E):
+            # in a forked child: compiled code that indexes out of range would take the worker down with it
+            def native():
+                out = []
+                for nt in (1, 2, 4):
+                    self.numba.set_num_threads(min(nt, self.numba.config.NUMBA_NUM_THREADS))
+                    with contextlib.redirect_stdout(io.StringIO()):
+                        nl, lab2 = props.find_ND_labels(ei, ej, n, verbose=0)
+                    out.append((nt, int(nl), [int(x) for x in lab2]))
+                return out
+            got = None
+            for attempt in range(2):
+                r, w = os.pipe()
+                pid = os.fork()
+                if pid == 0:
+                    try:
+                        os.close(r)
+                        import json as _json
+                        os.write(w, _json.dumps(native()).encode())
+                    finally:
+                        os._exit(0)
+                os.close(w)
+                buf = b""
+                while True:
+                    c = os.read(r, 1 << 16)
+                    if not c:
+                        break
+                    buf += c
+                os.close(r)
+                _, status = os.waitpid(pid, 0)
+                if buf:
+                    import json as _json
+                    got = _json.loads(buf.decode())
+                    break
+            if got is None:
+                viol = V("native-crash", "the compiled find_ND_labels died twice (status %s) on a graph the simulated source labels correctly" % status)
+            else:
+                for nt, nl, lab2 in got:
                     native_checked += 1
                     if nl != res["nlabel"] or (np.array(lab2) != res["labels"]).any():
                         viol = V("native-differs", "compiled find_ND_labels at %d numba threads differs from the simulated source" % nt)
